@@ -83,6 +83,25 @@ def check_one(f):
             out.append(("parse-not-repeatable", f"parsing {s[:80]!r} twice gives different filters"))
     except Exception as e:
         out.append((f"second-use-exc:{norm_msg(e, 30)}", f"second str()/from_string raised {type(e).__name__}: {e}"))
+    if back == obj and isinstance(obj, (sl.FilterAnd, sl.FilterOr)):
+        try:
+            obj.filters.append(sl.FilterPresent("added-after-str"))
+            s3 = str(obj)
+            if sl.LDAPFilter.from_string(s3) != obj:
+                out.append(("stale-text-after-edit", f"a tree edited after its text form had been taken renders as {s3[:80]!r}, which no longer denotes it"))
+                return out
+            # nested and/or nodes rendered earlier as part of their parent
+            inner = next((x for x in obj.filters if isinstance(x, (sl.FilterAnd, sl.FilterOr))), None)
+            if inner is not None:
+                inner.filters.append(sl.FilterPresent("added-inside"))
+                if sl.LDAPFilter.from_string(str(obj)) != obj:
+                    out.append(("stale-text-after-edit", "a nested and/or node edited after its parent had been rendered: the parent's text form is stale"))
+                    return out
+        except Exception as e:
+            out.append((f"second-use-exc:{norm_msg(e, 30)}", f"{type(e).__name__}: {e}"))
+            return out
+        # obj was edited on purpose: the remaining comparisons use the parsed copy only
+        obj = av.b_filter(f)
     if back == obj and isinstance(back, (sl.FilterAnd, sl.FilterOr, sl.FilterSubstrings)):
         try:
             (back.any if isinstance(back, sl.FilterSubstrings) else back.filters).append(b"edited" if isinstance(back, sl.FilterSubstrings) else sl.FilterPresent("edited-by-caller"))
